@@ -9,7 +9,7 @@ use serde_json::{json, Value};
 
 pub const LEVEL: &str = "exploration";
 pub const EXHAUSTIVE: bool = false;
-pub const RULE: &str = "generated: (a) constructed triples lead.word.trail with word in [A-Za-z0-9]{0,12} (biased to Avro's context-sensitive letters) and lead, trail of 0..3 characters of the statement's punctuation set, exhaustive for |word| <= 2 over a 20-letter sub-alphabet with every single lead and trail; (b) arbitrary strings of 1..16 of the 94 typeable characters biased to back-tick, colon and period runs; options English / smart quote / ANSI free. Oracle: suggestions off => the single string == okkhor(lead)+okkhor(word)+okkhor(trail) computed on the CONSTRUCTED parts (whole-text conversion when the word is empty), i.e. by an oracle that never splits; for (b) the parts come from the reference split transcribed from the documentation. Suggestions on => some candidate un-curls to that string, and for (a) with smart quotes the candidate curl_open(lead')+word'+curl_close(trail') is present. Non-trivial: converting the whole text differs from converting the parts (the split matters) or the text contains a back-tick or colon; distinct by text.";
+pub const RULE: &str = "generated: (a) constructed triples lead.word.trail with word in [A-Za-z0-9]{0,12} (biased to Avro's context-sensitive letters) and lead, trail of 0..3 characters of the statement's punctuation set, exhaustive for |word| <= 2 over a 20-letter sub-alphabet with every single lead and trail; (b) arbitrary strings of 1..16 of the 94 typeable characters biased to back-tick, colon and period runs; options English / smart quote / ANSI free. Oracle: suggestions off => the single string == okkhor(lead)+okkhor(word)+okkhor(trail) computed on the CONSTRUCTED parts (whole-text conversion when the word is empty), i.e. by an oracle that never splits; for (b) the parts come from the reference split transcribed from the documentation. Suggestions on => some candidate un-curls to that string, and for (a) with smart quotes the candidate curl_open(lead')+word'+curl_close(trail') is present. Non-trivial: converting the whole text differs from converting the parts (the split matters) or the text contains a back-tick or colon; distinct by text. (d) commit-then-type: for every punctuation-only text of 1..2 characters, every emoticon and a few words, under all 8 option sets, EVERY candidate index is committed once and a probe text typed next in the same context - without a finish request in between - is judged by (a)-(c).";
 pub const ASSUMPTIONS: &[&str] = &[
     "okkhor::parser::Parser::new_phonetic().convert is the definition of the Avro transliteration",
     "header-derived key table",
